@@ -136,6 +136,22 @@ pub fn run(data: &[u8], ctx: &mut Ctx) -> Outcome {
     };
     candidates.push(("near-miss", near, false));
     candidates.push(("unrelated", Envelope::new("MK-unrelated"), false));
+    // un-eliding accepts only an envelope whose digest equals the receiver's — whatever form the receiver
+    // is in (the plain placeholder, the partially obscured result, or the original itself)
+    for (rname, receiver) in [("obscured-result", &r), ("original", &e)] {
+        for (name, c, want) in &candidates {
+            let got = nopanic!(ctx, receiver.unelide(c.clone()), "unelide", "C03/unelide");
+            match got {
+                Ok(x) => {
+                    check!(ctx, *want, "unelide", "C03/unelide/accepts", "unelide on the {} accepted a {} envelope with a different digest", rname, name);
+                    check!(ctx, x.digest() == e.digest(), "unelide", "C03/unelide/result", "unelide returned an envelope with another digest");
+                }
+                Err(_) => {
+                    check!(ctx, !*want, "unelide", "C03/unelide/rejects", "unelide on the {} rejected the {} envelope although the digests are equal", rname, name);
+                }
+            }
+        }
+    }
     for (name, c, want) in candidates {
         let got = nopanic!(ctx, placeholder.unelide(c.clone()), "unelide", "C03/unelide");
         match got {
